@@ -49,7 +49,7 @@ RULE = ("interp cases: 0-2 batch axes (size 1-3) x 1-3 interpolated axes, every 
 CLAUSES = ["roundtrip", "values-mean", "intensity", "band-content", "shift-roll", "shift-compose",
            "shift-compose-roll", "downsample-content", "downsample-grid"]
 QUICK = dict(n=1400, time=40)
-THOROUGH = dict(n=32000, time=240, shards=16)
+THOROUGH = dict(n=256000, time=480, shards=16)
 ASSUMPTIONS = ["band-limited = no Fourier content at or above the Nyquist index of the smaller grid in any resampled axis",
                "fft_shift is judged for complex input only (abTEM's fftw fft2 refuses real arrays; all internal callers pass complex probes)"]
 
